@@ -291,3 +291,23 @@ Definition run_layout (c : bool * Z * Z) : list Z :=
   map (code_of_pos il n t) (zrange (n * t))
   ++ flat_map (fun i => map (fun a => tdid_index il n t i a) (zrange t)) (zrange n)
   ++ map (logprob_flatten il n t (fun i a => i * t + a)) (zrange (n * t)).
+
+(* exhaustive families, enumerated inside Coq (the driver mirrors the order):
+   case = (il, n, t, fam, lo, hi).  ints range over -len-1 .. len (one invalid value on each
+   side), slice bounds over None :: lo .. hi, steps over None, 1, 2, 3.
+   fam 0: int x int;  fam 1: int x slice;  fam 2: slice x int. *)
+Definition zseq (lo hi : Z) : list Z := map (fun k => lo + Z.of_nat k) (seq 0 (Z.to_nat (hi - lo + 1))).
+Definition obounds (lo hi : Z) : list (option Z) := None :: map Some (zseq lo hi).
+Definition osteps : list (option Z) := [None; Some 1; Some 2; Some 3].
+Definition all_slices (lo hi : Z) : list pyslice :=
+  flat_map (fun a => flat_map (fun b => map (fun k => mk a b k) osteps) (obounds lo hi)) (obounds lo hi).
+Definition all_ints (len : Z) : list Z := zseq (- len - 1) len.
+
+Definition run_family (c : bool * Z * Z * Z * Z * Z) : list (list Z) :=
+  let '(il, n, t, fam, lo, hi) := c in
+  let go ri ci := run_getitem (il, 2, n, t, [EI ri; EI ci]) in
+  if fam =? 0 then flat_map (fun i => map (fun a => go (IInt i) (IInt a)) (all_ints t)) (all_ints n)
+  else if fam =? 1 then
+    flat_map (fun i => map (fun s => go (IInt i) (ISlice s)) (all_slices lo hi)) (all_ints n)
+  else
+    flat_map (fun s => map (fun a => go (ISlice s) (IInt a)) (all_ints t)) (all_slices lo hi).
